@@ -75,6 +75,7 @@ type Path struct {
 	covers       map[string]bool
 	side         map[*value]interface{} // stub state keyed by object address
 	opaqueN      int
+	rendered     map[string][]Atom
 	files        map[string]*vfile
 	notExistErrs []*value
 	days         map[string]*dayInfo
